@@ -24,7 +24,7 @@
    data section. The cut of today refuses it (c05_sign_first_two_members_refused); the
    old cut is kept as [expand_apk_with ... true] for the regression statement
    c05_old_cut_refuted only. *)
-From Apko Require Import Base.Prelude Model.PkgAuth Spec.PkgAuthSpec Proofs.PkgAuthProofs.
+From Apko Require Import Base.Prelude Generated.C05Sum Model.PkgAuth Spec.PkgAuthSpec Proofs.PkgAuthProofs.
 Open Scope string_scope. Open Scope list_scope.
 
 (* ---- (a) the cut: which bytes the hashes cover ------------------------------------------
@@ -346,6 +346,45 @@ Theorem c05_sparse_entries_refused : forall sha1 sha256 b64 first_name ctl_view 
   forall f, In f (d_files (x_dat x)) -> f_sparse f = false.
 Proof. exact expand_uncached_no_sparse. Qed.
 Print Assumptions c05_sparse_entries_refused.
+
+(* ---- checksumFromHeader, in the model (round 2): which record of a tar header is the
+   per-file checksum and how it is decoded. Key and prefix are read from the source
+   (Generated/C05Sum.v: pax_checksum_key, checksum_b64_prefix).
+   A header without a record under that key — no PAX records at all, or only others —
+   yields "no checksum" (skipped by checkSums, recomputed by the streaming install,
+   refused by the lazy one): never an error and never a match. *)
+Theorem c05_header_without_record_has_no_checksum : forall b64 recs,
+  (forall k v, In (k, v) recs -> k <> pax_checksum_key) -> checksum_from_header b64 recs = SumNone.
+Proof. exact checksum_absent. Qed.
+Print Assumptions c05_header_without_record_has_no_checksum.
+
+(* the digest a body is compared with is exactly the decoded value of that one record:
+   base64 of what follows the prefix, or hex (either case) of the whole value *)
+Theorem c05_compared_digest_is_the_decoded_record : forall b64 recs d,
+  checksum_from_header b64 recs = SumSome d ->
+  exists v, assoc_s pax_checksum_key recs = Some v /\
+    ((String.prefix checksum_b64_prefix v = true /\ b64 (drop_prefix checksum_b64_prefix v) = Some d) \/
+     (String.prefix checksum_b64_prefix v = false /\ unhex v = Some d)).
+Proof. exact checksum_decoded. Qed.
+Print Assumptions c05_compared_digest_is_the_decoded_record.
+
+(* and the record apk-tools writes, the lower-case hex of a digest, is read back as exactly
+   those bytes, for every byte string (hex.DecodeString inverts hex.EncodeToString; a hex
+   string never has the base64 prefix) *)
+Theorem c05_hex_record_round_trip : forall b64 recs d,
+  (forall x, In x d -> (x < 256)%N) -> assoc_s pax_checksum_key recs = Some (hex d) ->
+  checksum_from_header b64 recs = SumSome d.
+Proof. exact checksum_of_hex_record. Qed.
+Print Assumptions c05_hex_record_round_trip.
+
+Example c05_checksum_records :
+  checksum_from_header wit_b64 [("SCHILY.xattr.user.x", "1")] = SumNone /\
+  checksum_from_header wit_b64 [("APK-TOOLS.checksum.SHA1", "0aFf")] = SumSome [10; 255]%N /\
+  checksum_from_header wit_b64 [("APK-TOOLS.checksum.SHA1", "Q11")] = SumSome [1]%N /\
+  checksum_from_header wit_b64 [("APK-TOOLS.checksum.SHA1", "Q1!")] = SumBad /\
+  checksum_from_header wit_b64 [("APK-TOOLS.checksum.SHA1", "abc")] = SumBad /\
+  checksum_from_header wit_b64 [("apk-tools.checksum.sha1", "0a")] = SumNone.
+Proof. repeat split; vm_compute; reflexivity. Qed.
 
 (* the boolean validator run on what the implementation installed decides
    exactly the readable chain *)
